@@ -193,3 +193,69 @@ func init() {
 		return p.e.ts.BV(64, uint64(len(p.logs["packets"])))
 	}
 }
+
+func init() {
+	externals[serfPkg+".encodeRelayMessage"] = func(p *Path, fr *frame, a []Value) Value {
+		// (t messageType, addr net.UDPAddr, nodeName string, msg any, newFmt bool)
+		t := a[0].(*Term)
+		hdr := Struct{a[1], a[2], a[3]}
+		id := len(p.tokens)
+		p.tokens = append(p.tokens, tokenRec{typ: nil, val: deepCopy(hdr, map[Ptr]Ptr{})})
+		out := Slice{p.e.byteConst[11], p.e.byteConst[tokenMagic], p.e.byteConst[id], p.e.ts.Resize(t, 8, false)}
+		return Tuple{out, Iface{}}
+	}
+	ml := "(*github.com/hashicorp/memberlist.Memberlist)."
+	externals[ml+"LocalNode"] = func(p *Path, fr *frame, a []Value) Value {
+		if v, ok := p.ghost["localNode"]; ok {
+			return v
+		}
+		panic(engineError("LocalNode: harness did not provide a local node (vfSetLocalNode)"))
+	}
+	intrinsics["vfSetLocalNode"] = func(p *Path, fr *frame, a []Value) Value {
+		p.ghost["localNode"] = a[0]
+		return nil
+	}
+	intrinsics["vfSetNumMembers"] = func(p *Path, fr *frame, a []Value) Value {
+		p.ghost["numMembers"] = a[0]
+		return nil
+	}
+	// vfPacket(i) returns the i-th packet handed to the transport: (address name, address string, bytes)
+	intrinsics["vfPacketName"] = func(p *Path, fr *frame, a []Value) Value {
+		pk := p.logs["packets"][concInt(a[0])].(Tuple)
+		return pk[0].(Struct)[1]
+	}
+	intrinsics["vfPacketAddr"] = func(p *Path, fr *frame, a []Value) Value {
+		pk := p.logs["packets"][concInt(a[0])].(Tuple)
+		return pk[0].(Struct)[0]
+	}
+	intrinsics["vfPacketBytes"] = func(p *Path, fr *frame, a []Value) Value {
+		pk := p.logs["packets"][concInt(a[0])].(Tuple)
+		return pk[1]
+	}
+	randInt := func(w int) extFn {
+		return func(p *Path, fr *frame, a []Value) Value {
+			ts := p.e.ts
+			n := a[0].(*Term)
+			if p.Branch(ts.BVCmp("bvsle", n, ts.BV(w, 0))) {
+				panic(targetPanic{msg: "invalid argument to Intn"})
+			}
+			r := p.newInput("rand", BVSort(w))
+			p.assumeQuiet(ts.And(ts.BVCmp("bvsge", r, ts.BV(w, 0)), ts.BVCmp("bvslt", r, n)))
+			return r
+		}
+	}
+	externals["math/rand.Intn"] = randInt(64)
+	externals["math/rand.Int63n"] = randInt(64)
+	externals["math/rand.Int31n"] = randInt(32)
+	externals["math/rand.Int31"] = func(p *Path, fr *frame, a []Value) Value {
+		ts := p.e.ts
+		r := p.newInput("rand", BVSort(32))
+		p.assumeQuiet(ts.BVCmp("bvsge", r, ts.BV(32, 0)))
+		return r
+	}
+	externals["math/rand.Uint32"] = func(p *Path, fr *frame, a []Value) Value { return p.newInput("rand", BVSort(32)) }
+	externals["(*net.UDPAddr).String"] = func(p *Path, fr *frame, a []Value) Value {
+		// injective rendering is not needed by any assertion: opaque
+		return &Str{b: []*Term{p.e.byteConst['?']}, opaque: true}
+	}
+}
